@@ -820,6 +820,11 @@ class Interp:
         raise AnalysisError(f"builtin {name} not in vocabulary")
 
     def sort(self, seq, key, node):
+        if key is None and all(_plain(x) and x is not None for x in seq):
+            try:
+                return sorted(seq)
+            except TypeError:
+                pass
         raise AnalysisError("sorting symbolic values not in vocabulary")
 
     def sym_len(self, v, node):
